@@ -147,6 +147,10 @@ def stems(n=300, base=100.0):
             nt[i, 1] = nt[i, 2] = nt[i, 3] = nt[i, 4] = cl[i]
             nt[i, 5] = 0.0
     out['notrade'] = nt
+    # a listing that starts without any volume: a moving market whose first third reports volume 0 on every candle
+    zv = build([base + (i % 11) * 0.6 - (i % 4) * 0.9 + 0.05 * i for i in range(n)])
+    zv[: n // 3, 5] = 0.0
+    out['zerovol-start'] = zv
     # two deterministic "real looking" walks (linear congruential steps, no RNG)
     for name, seed in (('walk1', 12345), ('walk2', 777)):
         x = seed
